@@ -154,6 +154,7 @@ func (u *controlUnit) handleRunner(ctx *risc.Context, cycle int, runner *risc.In
 		u.pushedRunnersInCurrentCycle[runner] = true
 		log.Infoi(ctx, "CU", runner.Runner.InstructionType(), runner.Pc, "forward runner on %s (source %d)", register, previousRunner.Pc/4)
 		u.forwarding++
+		ctx.VerifEvent(risc.VerifKindDispatch, runner.SequenceID, 1, previousRunner.SequenceID)
 		return true, true
 	}
 
@@ -232,6 +233,7 @@ func (u *controlUnit) pushRunner(ctx *risc.Context, cycle int, runner *risc.Inst
 	}
 
 	u.outBus.Add(runner, cycle)
+	ctx.VerifEvent(risc.VerifKindDispatch, runner.SequenceID, 0, 0)
 	ctx.AddPendingRegisters(runner.Runner)
 	log.Infoi(ctx, "CU", runner.Runner.InstructionType(), runner.Pc, "pushing runner")
 	return true
